@@ -42,6 +42,10 @@ struct Case {
     /// 0: all records once, log only; 1: data records first written header-only, compacted into a table, then upgraded; 2: table only
     form: u8,
     cb: &'static str,
+    /// 0: all blk files present. Otherwise the active blocks of heights >= 3 live in blk00002.dat, which is not usable:
+    /// 1 removed, 2 a dangling symbolic link, 3 a directory of that name. The run may fail (C10's business) but must not
+    /// fall back to a competitor whose file happens to be there.
+    tip_file: u8,
 }
 
 const TIP: u64 = 4;
@@ -116,9 +120,9 @@ pub fn run() -> Report {
     for s in &sets {
         for &form in &forms {
             for cb in &cbs {
-                cases.push(Case { end: None, hash_seed: 1, same_file: false, extras: s.clone(), form, cb });
+                cases.push(Case { end: None, hash_seed: 1, same_file: false, extras: s.clone(), form, cb, tip_file: 0 });
                 if form == 0 {
-                    cases.push(Case { end: None, hash_seed: 1, same_file: true, extras: s.clone(), form, cb });
+                    cases.push(Case { end: None, hash_seed: 1, same_file: true, extras: s.clone(), form, cb, tip_file: 0 });
                 }
             }
         }
@@ -129,10 +133,17 @@ pub fn run() -> Report {
                 for end in [h, h + 1] {
                     if end >= 1 && end <= TIP {
                         for hash_seed in [1u8, 2, 6, 9, 17, 18, 19, 28, 47, 48] {
-                            cases.push(Case { end: Some(end), hash_seed, same_file: false, extras: s.clone(), form: 0, cb: "csvdump" });
+                            cases.push(Case { end: Some(end), hash_seed, same_file: false, extras: s.clone(), form: 0, cb: "csvdump", tip_file: 0 });
                         }
                     }
                 }
+            }
+        }
+    }
+    for x in &singles {
+        for tip_file in 1..=3u8 {
+            for cb in &cbs {
+                cases.push(Case { end: None, hash_seed: 1, same_file: false, extras: vec![*x], form: 0, cb, tip_file });
             }
         }
     }
@@ -151,8 +162,9 @@ pub fn run() -> Report {
             if !c.same_file {
                 for (h, b) in chain.blocks.iter().enumerate() {
                     let raw = b.ser();
-                    let pos = world.place_raw(0, &raw, raw.len() as u32);
-                    recs.push((IndexRec { hash: b.hash(), client_version: 270000, height: h as u64, status: if h == 0 { VALID_SCRIPTS | HAVE_DATA } else { ACTIVE }, ntx: b.txs.len() as u64, file: 0, data_pos: pos, undo_pos: 8 + h as u64, header: b.header.ser() }, true));
+                    let file = if c.tip_file != 0 && h >= 3 { 2 } else { 0 };
+                    let pos = world.place_raw(file, &raw, raw.len() as u32);
+                    recs.push((IndexRec { hash: b.hash(), client_version: 270000, height: h as u64, status: if h == 0 { VALID_SCRIPTS | HAVE_DATA } else { ACTIVE }, ntx: b.txs.len() as u64, file, data_pos: pos, undo_pos: 8 + h as u64, header: b.header.ser() }, true));
                 }
             }
             let comp_file: u64 = if c.same_file { 0 } else { 1 };
@@ -249,10 +261,28 @@ pub fn run() -> Report {
             if c.hash_seed != 1 {
                 spec.env.push(("VERIF_DETRAND".into(), c.hash_seed.to_string()));
             }
-            let r = match wk.world_run(&world, &spec) {
-                Ok(r) => r,
-                Err(m) => return acc.machinery(m),
-            };
+            if let Err(m) = wk.materialise(&world) {
+                return acc.machinery(m);
+            }
+            if c.tip_file != 0 {
+                let f = wk.data().join("blocks").join("blk00002.dat");
+                let f = if f.exists() { f } else { wk.data().join("blk00002.dat") };
+                if !f.exists() {
+                    return acc.machinery(format!("blk00002.dat not found under {}", wk.data().display()));
+                }
+                let _ = std::fs::remove_file(&f);
+                match c.tip_file {
+                    2 => {
+                        let _ = std::os::unix::fs::symlink("../archive/blk00002.dat", &f);
+                    }
+                    3 => {
+                        let _ = std::fs::create_dir(&f);
+                    }
+                    _ => {}
+                }
+                acc.count("blk-file-of-the-active-tip-unusable", 1);
+            }
+            let r = wk.run(&spec);
             acc.states += 1;
             acc.transitions += 1;
             if !c.extras.is_empty() {
@@ -272,7 +302,13 @@ pub fn run() -> Report {
                 bad.push(("wrong-tip".into(), format!("processed up to height {} but the range ends at {}", e, want_end)));
             }
             let range = in_range(&all, s, e);
-            bad.extend(if c.cb == "csvdump" { check_csvdump(&r, btc, &range, s, e) } else { check_unspent(&r, btc, &range, s, e) });
+            if c.tip_file != 0 && !r.ok() {
+                // the run failed because a block of the active chain cannot be read: how it fails is C10's business;
+                // what must not happen is judged below (a competitor's transactions in anything it wrote)
+                bad.clear();
+            } else {
+                bad.extend(if c.cb == "csvdump" { check_csvdump(&r, btc, &range, s, e) } else { check_unspent(&r, btc, &range, s, e) });
+            }
             // foreign transactions in any output
             for (name, content) in &r.files {
                 let text = String::from_utf8_lossy(content);
